@@ -125,6 +125,47 @@ def run(tier, argv):
             bad.append(f"raised {type(ex_).__name__}: {str(ex_).splitlines()[0][:140] if str(ex_) else ''}")
         if bad:
             chk.violation(ck, "; ".join(bad[:2]), {"row": row})
+    # ---- batching law (Dists.tla BatchPairs): two rows stacked along a new leading axis are the two rows side by side
+    DISCRETE = ("bernoulli", "categorical", "geometric", "poisson", "binomial", "negative_binomial", "zipf", "multinomial")
+    n_batch = 0
+    for (i, j) in dj["pairs"]:
+        ri, rj = table[i - 1], table[j - 1]
+        name = ri["dist"]
+        dist = getattr(D, name)
+        try:
+            pi_, pj_ = [conv(p) for p in ri["params"]], [conv(p) for p in rj["params"]]
+            vi, vj = conv(ri["value"]), conv(rj["value"])
+            if any(jnp.shape(a) != jnp.shape(b) for a, b in zip(pi_, pj_)) or jnp.shape(vi) != jnp.shape(vj) or jnp.ndim(vi) > 1:
+                continue
+            ps = [jnp.stack([a, b]) for a, b in zip(pi_, pj_)]
+            v = jnp.stack([vi, vj])
+        except Exception:
+            continue
+        if name in DISCRETE and v.dtype != jnp.bool_:
+            v = v.astype(jnp.int32) if name == "categorical" else v.astype(jnp.float32)
+        wants = [ring(r["lp"]) + (-(math.log(2.0) ** 2) / 2 if extra[k - 1] == "minus_half_ln2_squared" else 0.0) for r, k in ((ri, i), (rj, j))]
+        if ri["how"] == "pos":
+            args, kw = ps, {}
+        else:
+            args, kw = [], dict(zip(ri["how"].split(":")[1].split(","), ps))
+        ck = f"batched|{name}|{ri['how']}|rows={i},{j}"
+        chk.case(ck)
+        n_batch += 1
+        bad = []
+        try:
+            for vn, th in (("logpdf", lambda: dist.logpdf(v, *args, **kw)), ("assess", lambda: dist.assess(v, *args, **kw)[0]),
+                           ("jit", lambda: jax.jit(lambda vv: dist.logpdf(vv, *args, **kw))(v))):
+                out = np.asarray(th())
+                if out.shape == (2,):
+                    if any(abs(float(out[k]) - wants[k]) > 3e-5 * (1 + abs(wants[k])) for k in (0, 1)):
+                        bad.append(f"{vn} of the stacked rows = {out.tolist()}, the rows one by one = {wants}")
+                elif abs(float(np.sum(out)) - sum(wants)) > 3e-5 * (1 + abs(sum(wants))):
+                    bad.append(f"{vn} of the stacked rows sums to {float(np.sum(out))}, the rows one by one sum to {sum(wants)}")
+        except Exception as ex_:
+            bad.append(f"raised {type(ex_).__name__}: {str(ex_).splitlines()[0][:140] if str(ex_) else ''}")
+        if bad:
+            chk.violation(ck, "; ".join(bad[:2]), {"rows": [ri, rj]})
+    chk.cov["batched_row_pairs"] = n_batch
     exported = [n for n in D.__dict__ if isinstance(getattr(D, n), genjax.Distribution)]
     missing = sorted(set(exported) - seen)
     if missing:
